@@ -77,7 +77,7 @@ def replay_exec(ctx, tag, records, engines, pair=None, claim=None, timeout_ms=20
 # Machine.tla (TraceInterp.tla): every register of every step, helper calls, outcome, memory.
 # ------------------------------------------------------------------------------------------------
 def validate_trace(ctx, tag, path, devs):
-    r = run_tlc(tag, "TraceInterp", {"NB": 8, "LB": 8, "TraceDevs": set(devs)}, spec="TraceSpec",
+    r = run_tlc(tag, "TraceInterp", {"NB": 8, "LB": 8, "TraceDevs": set(devs), "CheckEngines": ctx.prop in ("C03", "C04")}, spec="TraceSpec",
                 invariants=["TraceInv"], postcondition="TraceAccepted", workers=1, timeout=1800,
                 env={"TRACE": path}, expect_violation=True)
     import re
@@ -163,7 +163,9 @@ def trace_interp(ctx, tag, n, mode="mixed", chunks=8, cases_file=None):
         for b in r["bad"]:
             ev = b["event"]
             what = {"step": "the interpreter's state before this instruction is not the state the specification reaches",
-                    "end": "the outcome / final memory differs from the specification's",
+                    "end": "the outcome / final memory differs from the specification's"
+                           + (" or a compiled engine's result differs from the interpreter's on a run the specification judges defined: jit="
+                              + json.dumps(ev.get("jit", {}).get("val")) + " cl=" + json.dumps(ev.get("cl", {}).get("val")) + " interp=" + json.dumps(ev.get("val")) if ctx.prop in ("C03", "C04") else ""),
                     "helper": "unexpected helper call", "start": "initial context differs"}.get(ev.get("e"), "unexplained event")
             ctx.violation(f"recorded interpreter run is not a behaviour of Machine.tla at event {b['event_index_in_run']} ({ev.get('e')}, pc={ev.get('pc')}): {what}",
                           {"kind": "trace", "case": b["case"], "event": ev, "event_index_in_run": b["event_index_in_run"]})
@@ -208,6 +210,8 @@ def run_C03(ctx):
     ctx.nontrivial = len({json.dumps(r["case"]["id"]) for r in recs})
     rep = replay_exec(ctx, "isa", recs, ["jit"], pair="interp")
     ctx.disagreements_checked = rep.get("disagreements_checked", 0)
+    # direction A: random structured programs on both engines, adjudicated by the trace specification
+    trace_interp(ctx, "structured", 150 if ctx.quick else 4000, mode="structured")
 
 
 def run_C04(ctx):
@@ -218,6 +222,7 @@ def run_C04(ctx):
         1 for r in recs if any(sg[1][0] == 0x85 and sg[1][2] == 1 for sg in r["case"]["prog"]))
     rep = replay_exec(ctx, "isa", recs, ["cl"], pair="interp")
     ctx.disagreements_checked = rep.get("disagreements_checked", 0)
+    trace_interp(ctx, "structured", 150 if ctx.quick else 4000, mode="structured")
 
 
 def run_C02(ctx):
